@@ -53,6 +53,11 @@ def oracle(line: str, obs: Obs):
             if st is not None and c not in succeeded:
                 expected_ce = m["cmd"] == 257 and ((direction.get(c) == "R") == m["R"]) and st == "CONNECTED"
                 if not expected_ce:
+                    after = next((kv(l) for l in lines if l.startswith("CONN " + c + " ")), None)
+                    if after is not None and st not in ("CLOSING", "CLOSED") and after.get("state") != st and not (outs or apps):
+                        fails.append({"what": "a message other than the expected CE message changed the state of a connection whose "
+                                              "capabilities exchange has not succeeded (it must be ignored)",
+                                      "event": ev, "state": st, "real": str(after)})
                     if outs or apps:
                         fails.append({"what": "a connection whose capabilities exchange has not succeeded processed a message "
                                               "other than the expected CE message (answered it / showed it to an application)",
